@@ -224,6 +224,8 @@ func checkTraversal(root *newick.Node, nodes []*newick.Node, what string) core.O
 }
 
 func runC19(r *core.Run) {
+	defer racePass(r, "race-C19", "PreOrder and PostOrder of one shared tree")
+
 	N := core.Pick(r, 9, 14)
 	r.Bound("trees", fmt.Sprintf("every ordered tree with 1..%d nodes", N))
 	core.Clause(r, "all-trees", core.Opts{Rule: "every ordered rooted tree (Łukasiewicz code) up to the node bound, PreOrder and PostOrder each vs the recursive reference; non-trivial = at least 3 nodes"},
